@@ -232,6 +232,78 @@ def run_mixed(pid, file_gens, dir_gens):
     return run
 
 
+# ----------------------------------------------------------------------------
+# builders
+
+BUILD_INVS = {
+    "C07": ["Inv_NoPanic", "Inv_C07_Shape", "Inv_C07_RefShape", "Inv_C07_RefEq"],
+    "C10": ["Inv_NoPanic", "Inv_C10_Same"],
+    "C11": ["Inv_NoPanic", "Inv_C11_Tsize", "Inv_C11_Returned", "Inv_C11_FileSizes", "Inv_C11_Big"],
+    "C16": ["Inv_NoPanic", "Inv_C16_NoDangling", "Inv_C16_CleanFailure", "Inv_C16_LinkOnlyWhenComplete", "Inv_C16_Big"],
+}
+
+
+def bgen(ctx, b, what, extra=()):
+    return gen(ctx, b, "build_" + what + "_" + str(abs(hash(tuple(map(str, extra)))) % 100000),
+               ["build-gen", "-what", what, "-seed", ctx.seed] + list(extra))
+
+
+def run_C07(ctx):
+    b = vlib.build_harness()
+    q = ctx.quick
+    vlib.model_check(ctx, "FileBuild", cfg_filebuild(16 if q else 40, [2, 3, 4], invs=["Inv_C07_Shape", "Inv_C01_Flatten"], props=()),
+                     name="FileBuild_C07")
+    # non-vacuity / documentation of F1: the pre-fix collapse rule is rejected by the same invariant
+    vlib.model_check(ctx, "FileBuild", cfg_filebuild(8, [2, 3], collapse="always", invs=["Inv_C07_Shape"], props=()),
+                     name="FileBuild_collapse_always", expect_violation="Inv_C07_Shape")
+    t = [bgen(ctx, b, "files", ["-maxn", 24 if q else 90, "-wmax", 4 if q else 7]),
+         bgen(ctx, b, "dedup", ["-maxn", 5 if q else 6, "-wmax", 2 if q else 3]),
+         bgen(ctx, b, "random", ["-count", 30 if q else 500]),
+         bgen(ctx, b, "wide", ["-maxn", 400 if q else 40000])]
+    ctx.exhaustive = True
+    decide(ctx, b, "TraceBuild", BUILD_INVS["C07"], t)
+
+
+def run_C10(ctx):
+    b = vlib.build_harness()
+    q = ctx.quick
+    vlib.model_check(ctx, "MCHamtBuild", cfg_hamtbuild(0), name="MCHamtBuild")
+    t = [bgen(ctx, b, "dirs", ["-fanouts", "8,256" if q else FAN_T, "-orders", 6 if q else 24, "-repeat", 3 if q else 20]),
+         bgen(ctx, b, "frag", ["-maxn", 7 if q else 10, "-count", 10 if q else 200]),
+         bgen(ctx, b, "misc", []),
+         bgen(ctx, b, "files", ["-maxn", 6 if q else 12, "-wmax", 3, "-repeat", 2])]
+    ctx.exhaustive = True
+    decide(ctx, b, "TraceBuild", BUILD_INVS["C10"], t)
+
+
+def run_C11(ctx):
+    b = vlib.build_harness()
+    q = ctx.quick
+    vlib.model_check(ctx, "FileBuild", cfg_filebuild(16 if q else 40, [2, 3, 4], invs=["Inv_C11_Sizes"], props=()), name="FileBuild_C11")
+    t = [bgen(ctx, b, "files", ["-maxn", 16 if q else 60, "-wmax", 4 if q else 6]),
+         bgen(ctx, b, "dedup", ["-maxn", 5 if q else 6, "-wmax", 3]),
+         bgen(ctx, b, "dirs", ["-fanouts", "8,256" if q else FAN_T, "-orders", 1, "-repeat", 0]),
+         bgen(ctx, b, "trees", ["-count", 12 if q else 150]),
+         bgen(ctx, b, "misc", []),
+         bgen(ctx, b, "random", ["-count", 25 if q else 400])]
+    ctx.exhaustive = True
+    decide(ctx, b, "TraceBuild", BUILD_INVS["C11"], t)
+
+
+def run_C16(ctx):
+    b = vlib.build_harness()
+    q = ctx.quick
+    vlib.model_check(ctx, "FileBuild", cfg_filebuild(12 if q else 30, [2, 3, 4], invs=["Inv_C16_NoDangling", "Inv_C16_Result"]),
+                     name="FileBuild_C16")
+    vlib.model_check(ctx, "MCHamtBuild", cfg_hamtbuild(3 if q else 6), name="MCHamtBuild_faults")
+    t = [bgen(ctx, b, "files", ["-maxn", 10 if q else 30, "-wmax", 3 if q else 4, "-faults"]),
+         bgen(ctx, b, "dirs", ["-fanouts", "8" if q else "8,16,256,1024", "-orders", 1, "-repeat", 2, "-faults"]),
+         bgen(ctx, b, "trees", ["-count", 10 if q else 100, "-faults"]),
+         bgen(ctx, b, "misc", [])]
+    ctx.exhaustive = True
+    decide(ctx, b, "TraceBuild", BUILD_INVS["C16"], t)
+
+
 def finish(ctx, plan):
     vlib.write_evidence(ctx, LEVEL, plan["rule"], ASSUME_COMMON + plan.get("assume", []))
 
@@ -290,7 +362,38 @@ F_WRITERS = ("writers", ["-maxn", "6", "-wmax", "3"], ["-maxn", "12", "-wmax", "
 F_FAULT = ("fault", ["-maxn", "8", "-wmax", "3"], ["-maxn", "16", "-wmax", "4"])
 F_PRELOAD = ("preload", ["-maxn", "9", "-wmax", "4"], ["-maxn", "20", "-wmax", "4"])
 
+TECH_BUILD = ("explicit TLA+ spec (FileBuild, HamtBuild) model-checked by TLC incl. every injected write failure; the real builders "
+              "run on a storage wrapper that records every write-open/commit; each build's write sequence, parsed independently "
+              "from the committed bytes, is validated by TLC against TraceBuild.tla")
+NOTE_BUILD = ("trusted: TLC, the independent block parser (boxo merkledag + gogo unixfs_pb), the write-opener wrapper; CID equality "
+              "with the reference importer is compared in Go; builds with more than 150 blocks are summarised by the harness")
+RULE_BUILD = ("a case is one logical input (file shape/content/chunker/width, entry set+fanout, symlink target, filesystem tree) "
+              "with its variants (orders, fragmentations, repeats, every single write-open/commit failure); every n <= bound x "
+              "width is enumerated, random cases derive from VERIF_SEED; non-trivial = at least one block written; distinct = case ids")
+
 PLANS = {
+    "C07": P(run_C07, "TLC checks that the transcribed builder layout equals the transcribed reference (boxo fillNodeRec) layout for "
+             "every chunk count n<=16 (thorough 40) and width 2..4, and that the pre-fix collapse rule does not (non-vacuity); the "
+             "real builder and the real boxo importer are run on every (n,w) up to 24x4 (thorough 90x7), chunk-equality patterns, "
+             "random contents/chunkers and the default width 174 around its boundaries: root CID and size compared, and both "
+             "walker-decoded shapes validated by TLC against RefLayout(n,w).",
+             rule=RULE_BUILD, technique=TECH_BUILD, note=NOTE_BUILD),
+    "C10": P(run_C10, "TLC checks on HamtBuild that the committed blocks and the root are independent of insertion order and of the "
+             "order in which child shards are serialised (Go map order); on the real code each entry set is built in many orders "
+             "and repeated runs, each file through every fragmentation of its source reader (all compositions of short inputs, "
+             "random fragmentations of large ones, content-defined chunkers), and TLC validates that every variant of one input "
+             "returned the identical link and size (Inv_C10_Same).",
+             rule=RULE_BUILD, technique=TECH_BUILD, note=NOTE_BUILD),
+    "C11": P(run_C11, "every committed block of every build is parsed independently; TLC recomputes cumulative and content sizes "
+             "bottom-up from the write sequence and checks every link's Tsize, every interior file node's FileSize and "
+             "BlockSizes, and the returned size (Inv_C11_*), incl. repeated-chunk contents where de-duplicated storage is "
+             "smaller than the tree, directories with caller-supplied sizes, and recursive imports.",
+             rule=RULE_BUILD, technique=TECH_BUILD, note=NOTE_BUILD),
+    "C16": P(run_C16, "TLC checks on FileBuild/HamtBuild that no committed block links to an uncommitted one at any prefix (every "
+             "serialisation order) and that a link is returned only after the whole DAG, never with an error, for every injected "
+             "failure position; on the real code every build (files, symlinks, plain/sharded directories, recursive imports) is "
+             "run clean and with the k-th write-open and k-th commit failing for every k, and TLC validates the recorded write "
+             "sequences (Inv_C16_*).", rule=RULE_BUILD, technique=TECH_BUILD, note=NOTE_BUILD),
     "C01": P(run_C01, "TLC checks on FileBuild/FileRead that every layout flattens to chunks 1..n and that the reader machine "
              "returns the content; the real builder+readers are run on every shape n<=9..30 x w<=5, three open modes, eight "
              "buffer sizes, six reference-writer modes and seeded random contents/chunkers, and each recorded call is "
